@@ -25,6 +25,19 @@ def names_for(d):
     return ['a', 'b', 'c'][:d]
 
 
+class PositionalModel(Model):
+    """A model that reads its features by POSITION (as SklearnWrapper / TorchWrapper do when no feature names are given):
+    the expectation is only right if imputation keeps the key order of the instance."""
+
+    def f(self, x):
+        vals = list(x.values())
+        return {'output': sum(F(3 ** j) * v for j, v in enumerate(vals)) + vals[0] * vals[-1]}
+
+
+def make_model(names, kind, log):
+    return PositionalModel(names, 'scalar', None, log) if kind == 'positional' else Model(names, kind, None, log)
+
+
 def row(i, names):
     base = [[F(1, 2), F(-1), F(3)], [F(2), F(4, 3), F(-2)], [F(-3, 2), F(4), F(1, 4)], [F(5), F(-1, 2), F(2, 3)],
             [F(-4), F(7, 2), F(-5, 3)]]
@@ -106,8 +119,8 @@ def inc_driver(cfg):
         from ixai.explainer import IncrementalSage, IncrementalPFI
         from ixai.imputer import MarginalImputer
         log = EventLog()
-        model = Model(names, cfg['model'], None, log)
-        loss = Loss(cfg['model'], 'poly', log)
+        model = make_model(names, cfg['model'], log)
+        loss = Loss('scalar' if cfg['model'] == 'positional' else cfg['model'], 'poly', log)
         storage = make_storage(cfg['storage'], cfg['r'])
         for i in range(cfg['r'] - 1):
             storage.update(row(i, names), None)
@@ -119,7 +132,7 @@ def inc_driver(cfg):
         cls = IncrementalSage if cfg['expl'] == 'sage' else IncrementalPFI
         ex = cls(model, loss, list(names), storage=storage, imputer=imp, n_inner_samples=cfg['n'],
                  dynamic_setting=True, smoothing_alpha=1)
-        ys = YS if cfg['model'] == 'scalar' else YS_MULTI
+        ys = YS if cfg['model'] in ('scalar', 'positional') else YS_MULTI
         ex.explain_one(row(cfg['r'] - 1, names), ys[0])            # seeds the storage: r rows now
         for h in range(cfg['H']):                                   # history: explained calls
             ex.explain_one(row((cfg['r'] + h) % 5, names), ys[1 + h])
@@ -184,8 +197,8 @@ def reference_batch(cfg):
 
 def reference_inc(cfg, rows, x, y):
     names = names_for(cfg['d'])
-    model = Model(names, cfg['model'], None, EventLog())
-    loss = Loss(cfg['model'], 'poly', EventLog())
+    model = make_model(names, cfg['model'], EventLog())
+    loss = Loss('scalar' if cfg['model'] == 'positional' else cfg['model'], 'poly', EventLog())
     strategy = 'joint' if cfg['strategy'] == 'libdefault' else cfg['strategy']
     if cfg['expl'] == 'pfi':
         base = loss.f(y, model.f(x))
@@ -215,6 +228,8 @@ def plan(tier):
             if strategy != 'libdefault':
                 tasks.append(('inc', dict(expl=expl, strategy=strategy, d=3, r=2, n=1, storage='Batch', H=0, model='scalar',
                                           switch=True)))
+                tasks.append(('inc', dict(expl=expl, strategy=strategy, d=3, r=2, n=1, storage='Batch', H=0,
+                                          model='positional')))
             # histories: explained calls and in-place replacements before the explanation under test
             for st, r in (('Geometric', 3), ('Interval', 2), ('Batch', 2)):
                 tasks.append(('inc', dict(expl=expl, strategy=strategy if strategy != 'libdefault' else 'joint',
